@@ -1,1 +1,39 @@
-From Coq Require Import ZArith.
+(* C12 — Aspect-preserving viewBox placement fits or fills and honours alignment.
+   The formulas of ivg.go are the single polymorphic definition Fit.aspect; its float32 instance
+   (Fit.F32ops) is compared bit-for-bit with the implementation, and these theorems are about its
+   instance over the reals (FitR.Rops).  The float32 rounding error is not bounded by a theorem. *)
+From Coq Require Import Reals Lra.
+From IVG Require Import Fit FitR.
+Local Open Scope R_scope.
+
+Theorem meet_spec : forall minx miny maxx maxy dx dy ax ay,
+  minx < maxx -> miny < maxy -> 0 < dx -> 0 < dy -> 0 <= ax <= 1 -> 0 <= ay <= 1 ->
+  let vw := maxx - minx in let vh := maxy - miny in
+  let '(mnx, mny, mxx, mxy) := aspect_meet Rops minx miny maxx maxy dx dy ax ay in
+  let w := mxx - mnx in let h := mxy - mny in
+  w * vh = h * vw /\
+  0 <= mnx /\ mxx <= dx /\ 0 <= mny /\ mxy <= dy /\
+  (w = dx \/ h = dy) /\
+  mnx = (dx - w) * ax /\ mny = (dy - h) * ay.
+Proof. exact FitR.meet_spec. Qed.
+Print Assumptions meet_spec.
+
+Theorem slice_spec : forall minx miny maxx maxy dx dy ax ay,
+  minx < maxx -> miny < maxy -> 0 < dx -> 0 < dy -> 0 <= ax <= 1 -> 0 <= ay <= 1 ->
+  let vw := maxx - minx in let vh := maxy - miny in
+  let '(mnx, mny, mxx, mxy) := aspect_slice Rops minx miny maxx maxy dx dy ax ay in
+  let w := mxx - mnx in let h := mxy - mny in
+  w * vh = h * vw /\
+  mnx <= 0 /\ dx <= mxx /\ mny <= 0 /\ dy <= mxy /\
+  (w = dx \/ h = dy) /\
+  mnx = (dx - w) * ax /\ mny = (dy - h) * ay.
+Proof. exact FitR.slice_spec. Qed.
+Print Assumptions slice_spec.
+
+Theorem size_spec : forall minx miny maxx maxy, vb_size Rops minx miny maxx maxy = (maxx - minx, maxy - miny).
+Proof. exact FitR.size_spec. Qed.
+Print Assumptions size_spec.
+
+(* non-vacuity: the hypotheses are satisfiable (a 10x20 viewBox, a 100x50 target, centred) *)
+Example ex_hyps : (0 < 10 /\ 0 < 20 /\ 0 < 100 /\ 0 < 50 /\ 0 <= 1/2 <= 1)%R.
+Proof. repeat split; lra. Qed.
